@@ -43,7 +43,7 @@ CONFIGS = {
     # module-level functions with the documented string option W="inverse" (weights 1/target, per sample)
     "inverse": dict(shape=(2, 2), bounds="ub-finite", K=None, baseline="scalar", W="inverse"),
 }
-PROCS = ["gaussian", "poisson", "minvar", "excitation"]
+PROCS = ["gaussian", "poisson", "minvar", "minvar-L1", "excitation"]
 SOLVERS = {"default": {}, "clarabel": dict(solver="CLARABEL")}
 
 
@@ -68,6 +68,9 @@ def _palette(spec):
     cen, nu = max(fp, key=lambda t: t[0].min())  # a facet with non-negative centroid (poisson needs targets >= 0)
     r2 = cen + 0.15 * ext * nu  # outside
     r3 = c0 + Abar @ np.where(np.arange(n) % 2 == 0, hi, lo + 0.5 * (hi - lo))  # on a face / edge
+    if np.any(lo > 0):
+        # a "dark" row: exactly the transformed baseline (its optimum is x = lb, not x = 0)
+        r0 = c0.copy()
     rows = np.array([r0, r1, np.maximum(r2, 0.05), r3])
     W = np.array([[1.0, 2.0, 0.5][:m], [2.0, 1.0, 1.5][:m], [0.5, 0.75, 2.0][:m], [1.5, 0.5, 1.0][:m]])
     return rows, W
@@ -77,14 +80,14 @@ def units(tier, seed):
     out = []
     for cfg in CONFIGS:
         for proc in PROCS:
-            if cfg == "inverse" and proc in ("excitation", "minvar"):
+            if cfg == "inverse" and proc in ("excitation", "minvar", "minvar-L1"):
                 continue
             if proc == "excitation":
                 L = 2 if tier == "quick" else 3
                 solvers = ["default"]
             else:
                 L = 3 if tier == "quick" else (5 if proc == "gaussian" else 4)
-                solvers = ["clarabel", "default"] if proc != "poisson" else ["default"]
+                solvers = ["clarabel", "default"] if proc not in ("poisson", "minvar-L1") else (["default"] if proc == "poisson" else ["clarabel"])
             for sol in solvers:
                 if sol == "default" and proc in ("gaussian", "minvar") and tier == "quick":
                     Lq = 2
@@ -101,9 +104,13 @@ def units(tier, seed):
     return out
 
 
-def _call(est, proc, rows, W, bs, okw, use_W):
+def _call(est, proc, rows, W, bs, okw, use_W, L1=None):
     """returns (X, Bp)"""
     kw = dict(okw)
+    if proc == "minvar-L1":
+        proc = "minvar"
+        if L1 is not None:
+            kw["L1"] = np.asarray(L1, dtype=float)
     if bs != "omit":
         kw["batch_size"] = bs
     if use_W == "inverse":
@@ -134,7 +141,11 @@ def _call(est, proc, rows, W, bs, okw, use_W):
     return np.asarray(X, dtype=float), np.asarray(Bp, dtype=float)
 
 
-def _script(spec, proc, rows, W, bs, okw, use_W):
+def _script(spec, proc, rows, W, bs, okw, use_W, L1=None):
+    if proc == "minvar-L1":
+        proc = "minvar"
+        if L1 is not None:
+            okw = dict(okw, L1=np.asarray(L1).tolist())
     s = B.script_est(spec) + "B = np.array(%r)\n" % (np.asarray(rows).tolist(),)
     kw = "".join(", %s=%r" % kv for kv in dict(okw, batch_size=bs).items() if kv[1] != "omit")
     if use_W == "inverse":
@@ -156,8 +167,8 @@ def run_unit(unit, rec):
     rows, Wp = _palette(spec)
     Abar, c0, lo, hi = B.model_of(spec)
     m, n = Abar.shape
-    unique_x = (n <= m) or proc == "minvar"
-    tol = {"gaussian": 4e-2 if sol == "default" else 4e-4, "poisson": 1e-2, "minvar": 4e-2 if sol == "default" else 2e-3, "excitation": 2e-2}[proc]
+    unique_x = (n <= m) or proc in ("minvar", "minvar-L1")
+    tol = {"gaussian": 4e-2 if sol == "default" else 4e-4, "poisson": 1e-2, "minvar": 4e-2 if sol == "default" else 2e-3, "minvar-L1": 5e-3, "excitation": 2e-2}[proc]
     base = dict(config=cfg, procedure=proc, solver=sol)
     try:
         from dreye.api import _verif
@@ -167,10 +178,24 @@ def run_unit(unit, rec):
     rec.state(B.state_key(est))
     # reference model: every palette row alone, batch size 1
     ref = {}
+    L1row = None
+    if proc == "minvar-L1":
+        # admissible requested totals: the totals of the unconstrained variance-minimal solutions of each palette row
+        L1row = []
+        for r in range(4):
+            try:
+                X0, _ = _call(B.make_est(spec), "minvar", rows[r : r + 1], Wp[r : r + 1], 1, okw, use_W)
+            except Exception as e:  # noqa
+                _v(rec, "a", dict(base, batch="reference(bs=1,n=1)", **exc_sig(e)), "variance minimisation of a single row with batch size 1 raised %r" % (e,), dict(row=r),
+                   script=_script(spec, "minvar", rows[r : r + 1], Wp[r : r + 1], 1, okw, use_W))
+                rec.outcome("reference-exception")
+                return
+            L1row.append(float(np.sum(X0[0])))
+        L1row = np.array(L1row)
     for r in range(4):
         rec.trans()
         try:
-            X, Bp = _call(B.make_est(spec), proc, rows[r : r + 1], Wp[r : r + 1], 1, okw, use_W)
+            X, Bp = _call(B.make_est(spec), proc, rows[r : r + 1], Wp[r : r + 1], 1, okw, use_W, L1=(None if L1row is None else L1row[r : r + 1]))
             ref[r] = (X[0], Bp[0])
         except Exception as e:  # noqa
             _v(rec, "a", dict(base, batch="reference(bs=1,n=1)", **exc_sig(e)), "fitting a single row with batch size 1 raised %r" % (e,), dict(row=r),
@@ -210,9 +235,9 @@ def run_unit(unit, rec):
                     _verif.drain()
                 est_ = B.make_est(spec)
                 try:
-                    X, Bp = _call(est_, proc, Bt, Wt, bs, okw, use_W)
+                    X, Bp = _call(est_, proc, Bt, Wt, bs, okw, use_W, L1=(None if L1row is None else L1row[list(seq)]))
                 except Exception as e:  # noqa
-                    _v(rec, "a", dict(sig, **exc_sig(e)), "%s with %d rows and batch_size=%r raised %r" % (proc, nS, bs, e), case, script=_script(spec, proc, Bt, Wt, bs, okw, use_W))
+                    _v(rec, "a", dict(sig, **exc_sig(e)), "%s with %d rows and batch_size=%r raised %r" % (proc, nS, bs, e), case, script=_script(spec, proc, Bt, Wt, bs, okw, use_W, L1=(None if L1row is None else L1row[list(seq)])))
                     rec.outcome("%s/exception" % bcls)
                     continue
                 if nS > 1 or eff != 1:
@@ -220,7 +245,7 @@ def run_unit(unit, rec):
                 # batch-event model vs hook log (coverage + localisation)
                 if _verif:
                     ev = [e for e in _verif.drain() if e.get("kind") == "solve" and e.get("n_samples") == nS]
-                    if proc == "minvar":
+                    if proc in ("minvar", "minvar-L1"):
                         ev = [e for e in ev if e.get("where") == "lsq_linear_minimize"]
                     if ev and proc != "excitation":
                         nb = math.ceil(nS / eff) if eff <= nS else 1
@@ -250,5 +275,5 @@ def run_unit(unit, rec):
                 rec.outcome("%s/%s" % (bcls, "same" if bad is None else "differs"))
                 if bad:
                     _v(rec, bad[0], dict(sig, what="row-result"), bad[1], dict(case, row=bad[2]), observed=dict(X=X, B_pred=Bp),
-                       expected=dict(rows=[ref[r][0] for r in seq], preds=[ref[r][1] for r in seq]), script=_script(spec, proc, Bt, Wt, bs, okw, use_W))
+                       expected=dict(rows=[ref[r][0] for r in seq], preds=[ref[r][1] for r in seq]), script=_script(spec, proc, Bt, Wt, bs, okw, use_W, L1=(None if L1row is None else L1row[list(seq)])))
     rec.sample(dict(config=cfg, procedure=proc, solver=sol, first_row=rows[first], L=L), cap=1)
